@@ -2,7 +2,8 @@
 From Coq Require Import List ZArith Bool.
 From LJT Require Import model.Huff model.Seq model.Prog model.Script model.ArithBin gen.GenNatOrder
   proofs.NatOrderProofs proofs.SeqBits proofs.SeqProofs proofs.ProgProofs proofs.ProgRefineProofs proofs.ScriptProofs
-  proofs.ChainProofs proofs.ArithProofs proofs.ExampleCodec proofs.C03Examples gen.GenRestartClamp proofs.RestartProofs.
+  proofs.ChainProofs proofs.ArithProofs proofs.ArithACProofs proofs.ArithQMProofs model.T81Arith
+  proofs.T81ArithProofsIdeal proofs.T81ArithProofsBytes proofs.ExampleCodec proofs.C03Examples gen.GenRestartClamp proofs.RestartProofs.
 Import ListNotations.
 Local Open Scope Z_scope.
 
@@ -224,25 +225,56 @@ Theorem C03_sa_chain_restores : forall nc prec scans st,
 Proof. exact sa_chain_restores. Qed.
 Print Assumptions C03_sa_chain_restores.
 
-(* ---- (6) arithmetic coding (PARTIAL): the DC-difference binarisation of jcarith.c and its
-   inverse in jdarith.c are mutually inverse and use the same statistics bins in the same order,
-   including the dc_context conditioning, for every |v| <= 2^15 -- GIVEN a QM coder that delivers
-   the coded decisions (hypothesis; the interval arithmetic with carry / stacked 0xFF bytes is
-   not modelled).  Full statement for a concrete QM coder pair (qm_encode, next): *)
-Definition C03_arith_decisions_roundtrip_full (stream : Type) (next : Z -> stream -> option (bool * stream))
-    (qm_encode : list decision -> stream) : Prop :=
-  forall ctx L U v ds ctx' more, Z.abs v <= 32768 ->
-    enc_dc_arith ctx L U v = (ds, ctx') ->
-    dec_dc_arith stream next ctx L U (qm_encode (ds ++ more)) = Some (v, ctx', qm_encode more).
-
-Theorem C03_arith_decisions_roundtrip_partial :
+(* ---- (6) arithmetic coding.  The binarisation layers of jcarith.c / jdarith.c (DC difference with
+   dc_context conditioning; AC coefficients of sequential / first scans incl. EOB and zero-run
+   decisions, magnitude category and bit pattern; AC refinement with the EOBx rule; DC refinement)
+   are mutually inverse and use the same statistics bins in the same order
+   (a) for any decision source that delivers the coded decisions (abstract QM coder), and
+   (b) for the QM coder model of C04 (model/T81Arith.v, qm_roundtrip proved there): anywhere inside
+       an arithmetic-coded interval (after the decisions pre, with more to come). *)
+Theorem C03_arith_dc_roundtrip_abstract :
   forall (stream : Type) (next : Z -> stream -> option (bool * stream)) (carries : stream -> list decision -> Prop),
   (forall s st b ds, carries s ((st, b) :: ds) -> exists s', next st s = Some (b, s') /\ carries s' ds) ->
   forall ctx L U v ds ctx' rest s, Z.abs v <= 32768 ->
     enc_dc_arith ctx L U v = (ds, ctx') -> carries s (ds ++ rest) ->
     exists s', dec_dc_arith stream next ctx L U s = Some (v, ctx', s') /\ carries s' rest.
 Proof. exact arith_dc_roundtrip. Qed.
-Print Assumptions C03_arith_decisions_roundtrip_partial.
+Print Assumptions C03_arith_dc_roundtrip_abstract.
+
+Theorem C03_arith_dc_roundtrip : forall pre more ctx L U v ds ctx', Z.abs v <= 32768 ->
+  enc_dc_arith ctx L U v = (ds, ctx') ->
+  exists q', dec_dc_arith qdec qm_decode ctx L U (at_point pre (ds ++ more)) = Some (v, ctx', q') /\ carriesQ q' more.
+Proof. exact arith_dc_roundtrip_qm. Qed.
+Print Assumptions C03_arith_dc_roundtrip.
+
+Theorem C03_arith_ac_first_roundtrip : forall pre more Kx Ss Se Al b blk, (Ss <= Se)%nat -> (Se <= 63)%nat ->
+  Forall (fun v => Z.abs v <= 32768) (acf_band Ss Se Al b) ->
+  exists q', dec_acf_a qdec qm_decode Kx Se Al 130 Ss true blk (at_point pre (enc_acf_block_a Kx Ss Se Al b ++ more))
+             = Some (acf_res Ss Se Al b blk, q') /\ carriesQ q' more.
+Proof. exact arith_ac_first_roundtrip_qm. Qed.
+Print Assumptions C03_arith_ac_first_roundtrip.
+
+Theorem C03_arith_ac_refine_roundtrip : forall pre more Ss Se Al b h,
+  (1 <= Ss)%nat -> (Ss <= Se)%nat /\ (Se <= 63)%nat -> 0 <= Al -> acr_hist Ss Se Al b h ->
+  exists q', dec_acr_a qdec qm_decode Se Al 65 Ss true h (at_point pre (enc_acr_block_a Ss Se Al (Al + 1) b ++ more))
+             = Some (acr_expected Ss Se Al b h, q') /\ carriesQ q' more.
+Proof. exact arith_ac_refine_roundtrip_qm. Qed.
+Print Assumptions C03_arith_ac_refine_roundtrip.
+
+Theorem C03_arith_dc_refine_roundtrip : forall pre more Al b blk,
+  exists q', dec_dcr_a qdec qm_decode Al blk (at_point pre (enc_dcr_a Al b ++ more)) = Some (dcr_block Al b blk, q') /\ carriesQ q' more.
+Proof. exact arith_dc_refine_roundtrip_qm. Qed.
+Print Assumptions C03_arith_dc_refine_roundtrip.
+
+(* the decoder state "at_point" really is the state of the decoder run on the encoder's bytes *)
+Theorem C03_arith_at_point : forall pre rest,
+  at_point pre rest = snd (qm_run (map fst pre) (qm_init_dec (qm_encode_all (pre ++ rest)))) /\
+  fst (qm_run (map fst (pre ++ rest)) (qm_init_dec (qm_encode_all (pre ++ rest)))) = map snd (pre ++ rest).
+Proof. exact at_point_spec. Qed.
+Print Assumptions C03_arith_at_point.
+
+Example C03_arith_qm_nonvacuous : arith_example_check = true.
+Proof. exact ex_arith_qm. Qed.
 
 (* the hypothesis is satisfiable (identity "coder": the stream is the decision list) and the
    binarisation then round-trips a maximal-category difference *)
